@@ -307,9 +307,19 @@ def hx(v):
 
 # -----------------------------------------------------------------------------------------------
 
+def _restore_generated():
+    """a run against a scratch worktree regenerated lean/Generated from that tree: put the committed
+    (unchanged /repo) version back so that other runs do not build against it"""
+    import subprocess
+    subprocess.run(["git", "-C", ROOT, "checkout", "--", "lean/Generated"], stdout=subprocess.DEVNULL, stderr=subprocess.DEVNULL)
+
+
 def main(tier):
     ck = Check("C06", tier)
     machinery, corr_broken = [], []
+    if SCRATCH:
+        import atexit
+        atexit.register(_restore_generated)
     # T: regenerate the DSL table from the current source
     info = translate_riscv.emit(REPO, GEN_PATH)
     ck.cov["translated"] = {isa: {"bindings": len(d["table"]), "sha256": d["sha256"][:16], "notes": d["notes"]} for isa, d in info.items()}
